@@ -444,6 +444,31 @@ class Net:
             tabs[i] = (int(v),)
         return Net(self.names, regs, tabs)
 
+    def restrict(self, sp):
+        """sub-network over the FREE variables of ``sp`` (fixed variables substituted); returns (Net, free index list)"""
+        free = [i for i in range(self.n) if sp[i] is None]
+        pos = {old: new for new, old in enumerate(free)}
+        regs, tabs = [], []
+        for i in free:
+            t = self.tables[i]
+            r = self.regs[i]
+            if t is None:
+                regs.append([])
+                tabs.append(None)
+                continue
+            keep = [x for x in r if sp[x] is None]
+            k = len(r)
+            nt = []
+            for idx in range(1 << len(keep)):
+                bits = {x: (idx >> (len(keep) - 1 - p)) & 1 for p, x in enumerate(keep)}
+                oi = 0
+                for x in r:
+                    oi = (oi << 1) | (bits[x] if x in bits else sp[x])
+                nt.append(t[oi])
+            regs.append([pos[x] for x in keep])
+            tabs.append(tuple(nt))
+        return Net([self.names[i] for i in free], regs, tabs), free
+
     def is_maa(self, a):
         return not any(self.attr_in_space(a, t) for t in self.min_traps())
 
